@@ -472,3 +472,64 @@ Proof.
   destruct (x =? 255) eqn:E5; [apply N.eqb_eq in E5; lia|].
   reflexivity.
 Qed.
+
+(* ------------------------------------------------------------------ *)
+(* split at SP and back: how the pieces sit in the request line *)
+
+Lemma find_some_split c s : forall i,
+  find s [c] = Some i -> s = firstn i s ++ c :: skipn (S i) s.
+Proof.
+  unfold find. induction s as [|x s IH]; intro i.
+  - cbn. discriminate.
+  - cbn [find_from]. rewrite startswith_single. destruct (c =? x) eqn:E.
+    + intro H. injection H as <-. apply N.eqb_eq in E. subst. reflexivity.
+    + rewrite find_from_shift. destruct (find_from s [c] 0) as [j|]; [|discriminate].
+      cbn [option_map]. intro H. injection H as <-. cbn [firstn skipn app]. f_equal. apply IH. reflexivity.
+Qed.
+
+Lemma find_some_lt c s i : find s [c] = Some i -> (i < length s)%nat.
+Proof.
+  intro H. pose proof (find_some_split c s i H) as E.
+  apply (f_equal (@length N)) in E. rewrite app_length in E. cbn [length] in E.
+  rewrite firstn_length in E. lia.
+Qed.
+
+Lemma split_fuel_nonempty fuel s sep : split_fuel fuel s sep <> [].
+Proof. destruct fuel; cbn [split_fuel]; [discriminate|]. destruct (find s sep); discriminate. Qed.
+
+Lemma join_cons sep x l : l <> [] -> join sep (x :: l) = x ++ sep ++ join sep l.
+Proof. destruct l; [contradiction|reflexivity]. Qed.
+
+Lemma join_split_fuel c : forall fuel s, (length s < fuel)%nat -> join [c] (split_fuel fuel s [c]) = s.
+Proof.
+  induction fuel as [|f IH]; intros s H; [lia|]. cbn [split_fuel].
+  destruct (find s [c]) as [i|] eqn:F; [|reflexivity].
+  rewrite join_cons by apply split_fuel_nonempty.
+  pose proof (find_some_lt _ _ _ F) as L.
+  rewrite IH.
+  - cbn [length]. replace (i + 1)%nat with (S i) by lia. symmetry. apply find_some_split. exact F.
+  - rewrite skipn_length. cbn [length]. lia.
+Qed.
+
+Lemma join_split c s : join [c] (split s [c]) = s.
+Proof. apply join_split_fuel. lia. Qed.
+
+Lemma crack_first_line_shape fl cmd uri ver :
+  crack_first_line fl = Some (cmd, uri, ver) ->
+  beqb cmd [] && beqb uri [] && beqb ver [] = false ->
+  (fl = cmd ++ [32] ++ uri /\ ver = []) \/
+  (exists v, fl = cmd ++ [32] ++ uri ++ [32] ++ v /\ ver = skipn 5 v).
+Proof.
+  intros H Hne. unfold crack_first_line in H.
+  destruct (negb (matches gate_request_line fl)).
+  { injection H as <- <- <-. discriminate. }
+  pose proof (join_split 32 fl) as J.
+  destruct (split fl [32]) as [|m [|u [|v [|w tl]]]].
+  - injection H as <- <- <-. discriminate.
+  - injection H as <- <- <-. discriminate.
+  - destruct (beqb m (upper_ascii m)); [|discriminate]. injection H as <- <- <-.
+    left. split; [|reflexivity]. symmetry. exact J.
+  - destruct (beqb m (upper_ascii m)); [|discriminate]. injection H as <- <- <-.
+    right. exists v. split; [|reflexivity]. symmetry. exact J.
+  - injection H as <- <- <-. discriminate.
+Qed.
